@@ -39,11 +39,17 @@ pub fn run_c04(cx: &mut Cx) { run(cx, Mode::Sound) }
 fn run(cx: &mut Cx, mode: Mode) {
     cx.preemptions_left = cx.ch.choose("preemptions", 3) as u32;
     let ideal: Shared = Rc::new(RefCell::new(Ideal::default()));
-    let issuer = cx.node("issuer");
     let holder = cx.node("holder");
     let verifier = cx.node("verifier");
-    let n = if mode == Mode::Complete { 1 + cx.ch.choose("sessions", 2) } else { 1 };
-    for s in 0..n { session(cx, mode, s, issuer, holder, verifier, ideal.clone()); }
+    // each session has its own issuer node; holder and verifier serve all sessions of the run, so
+    // that whatever they did for one session (other L, other suite, other header) precedes the next
+    let n = if mode == Mode::Complete { 1 + cx.ch.choose("sessions", 3) } else { 2 };
+    for s in 0..n {
+        let issuer = cx.node(&format!("issuer{s}"));
+        // in the soundness check session 0 is an honest warm-up of the same nodes
+        let m = if mode == Mode::Sound && s == 0 { Mode::Complete } else { mode };
+        session(cx, m, s, issuer, holder, verifier, ideal.clone());
+    }
     cx.run();
 }
 
@@ -128,6 +134,7 @@ pub fn deliver(cx: &mut Cx, verifier: NodeId, f: Presentation, fault: String, id
         cx.cur_item = Some(item);
         let verdict = ideal.borrow().judge_proof(f.suite, f.blind_l.is_some(), &f.pk, &f.proof, &f.header, &f.ph, f.blind_l.flatten(), &f.dmsgs, &f.didx, &None, &None);
         let seen = seen_of(&st.out);
+        if fault.starts_with("forged") { cx.log(format!("   {fault} -> {:?}", st.out)); }
         let idxb: Vec<u8> = inorm(&f.didx).iter().flat_map(|i| i.to_le_bytes()).collect();
         cx.eval(&[f.suite.name().as_bytes(), &[f.json.is_some() as u8, f.blind_l.is_some() as u8], &f.pk, &f.proof, zksim_core::wire::norm(&f.header), zksim_core::wire::norm(&f.ph), &lnorm(&f.dmsgs).concat(), &idxb], true);
         let entry = if f.blind_l.is_some() { "blind_proof_verify" } else if f.json.is_some() { "proof_verify(json)" } else { "proof_verify" };
@@ -308,7 +315,12 @@ fn mallory(cx: &mut Cx, honest: &Presentation, l_honest: usize, verifier: NodeId
         let id = G1Projective::identity();
         let k = rnd(&mut x);
         let rp = G1Projective::generator() * rnd(&mut x);
+        let so = small_order_point();
         let fams: Vec<(&str, G1Projective, G1Projective, G1Projective, Option<Scalar>)> = vec![
+            // Abar = Bbar = S of cofactor order (not in G1): e(S, .) = 1, so the pairing check is void;
+            // e^ = -c makes T1 = D*r1^ independent of c
+            ("smallorder-smallorder-Bv", so, so, bv, Some(Scalar::ONE)),
+            ("smallorder-smallorder-kBv", so, so, bv * k, Some(k)),
             // D = Bv*k, r3^ = -c/k cancels Bv*c; T1 = D*r1^, T2 = sum H_j m^_j are known before c
             ("id-id-Bv", id, id, bv, Some(Scalar::ONE)),
             ("id-id-kBv", id, id, bv * k, Some(k)),
@@ -322,6 +334,7 @@ fn mallory(cx: &mut Cx, honest: &Presentation, l_honest: usize, verifier: NodeId
             ("Bv-Bv-Bv", bv, bv, bv, Some(Scalar::ONE)),
         ];
         for (name, abar, bbar, d, cancel) in fams {
+            let smallorder = name.starts_with("smallorder");
             let e_cap = if name.starts_with("id-id") { rnd(&mut x) } else { Scalar::ZERO };
             let r1_cap = rnd(&mut x);
             let m_cap: Vec<Scalar> = und.iter().map(|_| rnd(&mut x)).collect();
@@ -332,10 +345,17 @@ fn mallory(cx: &mut Cx, honest: &Presentation, l_honest: usize, verifier: NodeId
             // T2 = Bv*c + D*r3^ + sum H_j m^_j ; with D = Bv*k and r3^ = -c/k this is sum H_j m^_j
             let mut t2_free = G1Projective::identity();
             for (kk, j) in und.iter().enumerate() { t2_free += gens[1 + j] * m_cap[kk]; }
-            let t1_free = abar * e_cap + d * r1_cap; // + Bbar*c, zero when Bbar is the identity
+            // small-order family: Bbar*c + Abar*e^ = S*(c + e^) vanishes for e^ = -c
+            let t1_free = if smallorder { d * r1_cap } else { abar * e_cap + d * r1_cap }; // + Bbar*c, zero when Bbar is the identity
             // fixed point: c = H(.., T1(c), T2(c), ..) has no dependence on c in the cancelling families
             let c = match rm::challenge(suite, &api, &disclosed, &abar, &bbar, &d, &t1_free, &t2_free, &domain, &ph) { Ok(c) => c, Err(_) => continue };
             let r3_cap = match cancel { Some(kv) => -(c * kv.invert().unwrap()), None => -c };
+            // S has order 3: S*c + S*e^ vanishes iff the canonical integers satisfy c + e^ = 0 mod 3
+            let e_cap = if smallorder {
+                let mut e = rnd(&mut x);
+                while (scalar_mod3(&e) + scalar_mod3(&c)) % 3 != 0 { e += Scalar::ONE; }
+                e
+            } else { e_cap };
             let p = rm::Proof { abar, bbar, d, e_cap, r1_cap, r3_cap, m_cap, c };
             let bytes = p.to_bytes();
             let base = Presentation { suite, pk: honest.pk.clone(), proof: bytes.clone(), header: honest.header.clone(), ph: honest.ph.clone(), dmsgs: Some(dmsgs.clone()), didx: Some(didx.clone()), json: None, blind_l: None };
@@ -346,4 +366,32 @@ fn mallory(cx: &mut Cx, honest: &Presentation, l_honest: usize, verifier: NodeId
             deliver(cx, verifier, j, format!("forged-json:{name}"), ideal.clone());
         }
     }
+}
+
+/// a point of order 3 on E(Fp) (so NOT in G1): the first on-curve, non-subgroup x multiplied
+/// by the group order r and by cofactor/3 with plain double-and-add
+pub fn small_order_point() -> G1Projective {
+    use bls12_381_plus::G1Affine;
+    const R_BE: [u8; 32] = [0x73, 0xed, 0xa7, 0x53, 0x29, 0x9d, 0x7d, 0x48, 0x33, 0x39, 0xd8, 0x08, 0x09, 0xa1, 0xd8, 0x05, 0x53, 0xbd, 0xa4, 0x02, 0xff, 0xfe, 0x5b, 0xfe, 0xff, 0xff, 0xff, 0xff, 0x00, 0x00, 0x00, 0x01];
+    const H_DIV_3: [u8; 16] = [0x13, 0x24, 0x2e, 0xaa, 0xc7, 0x1c, 0xa0, 0x72, 0x2e, 0xaa, 0xe3, 0x8e, 0x55, 0x55, 0x8e, 0x39];
+    fn mul_be(p: &G1Projective, k: &[u8]) -> G1Projective {
+        let mut acc = G1Projective::identity();
+        for byte in k { for bit in (0..8).rev() { acc = acc.double(); if byte >> bit & 1 == 1 { acc += p; } } }
+        acc
+    }
+    for x in 1u8..=250 {
+        let mut b = [0u8; 48];
+        b[0] = 0x80; b[47] = x;
+        if let Some(p) = Option::<G1Affine>::from(G1Affine::from_compressed_unchecked(&b)) {
+            if bool::from(p.is_torsion_free()) { continue; }
+            let s3 = mul_be(&mul_be(&G1Projective::from(p), &R_BE), &H_DIV_3);
+            if !bool::from(s3.is_identity()) && bool::from((s3.double() + s3).is_identity()) { return s3; }
+        }
+    }
+    G1Projective::identity()
+}
+
+/// canonical integer of a scalar modulo 3 (256 = 1 mod 3, so the octet sum decides)
+pub fn scalar_mod3(s: &Scalar) -> u8 {
+    (s.to_be_bytes().iter().map(|b| *b as u32).sum::<u32>() % 3) as u8
 }
